@@ -367,7 +367,11 @@ func unitReplay(opts *RunOpts, w *World, q *Oblig) (out *ReplayOutcome) {
 	for _, c := range w.specs.Contracts { // concrete replay inlines callees: the real code is what runs
 		e.noContract[c.target()] = true
 	}
-	e.sink = func(*Oblig) {}
+	e.sink = func(ob *Oblig) {
+		if ob.Kind == "safety" && ob.Goal.isFalse() {
+			e.safetyHits = append(e.safetyHits, ob.Name)
+		}
+	}
 	outs := e.run(st.clone(), fn, args)
 	if len(outs) != 1 {
 		return &ReplayOutcome{Note: fmt.Sprintf("replay: concrete inputs did not select a single path (%d)", len(outs))}
@@ -376,9 +380,12 @@ func unitReplay(opts *RunOpts, w *World, q *Oblig) (out *ReplayOutcome) {
 	var predicted []string
 	violated := false
 	switch {
-	case o.Panic != "":
+	case o.Panic != "" || (q.Kind == "safety" && len(e.safetyHits) > 0):
 		predicted = append(predicted, "GOVC-PANIC")
 		violated = q.Kind == "safety"
+		if o.Panic == "" {
+			o.Panic = "safety obligation false on the concrete run"
+		}
 	default:
 		for k, r := range o.Rets {
 			predicted = append(predicted, fmt.Sprintf("GOVC-RESULT %d %s", k, canonVal(o.St, r, inputCells, 0)))
